@@ -47,7 +47,8 @@ class P(Prop):
     RULE = ("evaluator histories of 1..40 (thorough ..400) non-NaN queries over 1..10 segments (tags / Poly3), styles: random "
             "walk, long jumps, repeats, exact ends and ulp-neighbours, +-inf; the cursor state (tail length, last argument) "
             "is compared after every query through the cfg hook. non-trivial = history contains a forward and a backward "
-            "move and selects >= 2 segments; distinct by full input")
+            "move and selects >= 2 segments; distinct by full input"
+            " Also: evaluator_direct (the evaluator's answer against Piecewise::evaluate on the same argument, bit for bit) over pieces with signed-zero constants, 16..70 pieces with runs of equal ends, infinite first / last breakpoints with infinite first queries.")
     TRUSTED = ["hand-written skeleton PwModel.step/run tied to PiecewiseEvaluator by bit-exact correspondence of answers AND states"]
     ASSUMPTIONS = ["IEEE-754 comparisons", "cfg hook verif_state reports the real tail length / last_evaluation"]
     NAN = False
@@ -115,6 +116,18 @@ class P(Prop):
             xs[rng.randrange(len(xs) - 1) + 1] = z[rng.randrange(2)]
             xs[0] = z[rng.randrange(2)] if rng.random() < 0.7 else xs[0]
             out.append(dict(op="evaluator_direct", ty=ty, segs=sg, xs=xs, meta={"class": "evaluator_direct/signed_zero"}))
+        for k in (16, 17, 24, 33, 40, 64, 70):
+            # long functions with RUNS of equal breakpoints, queried exactly on them (and around), forwards and backwards
+            es = []
+            x = 0.0
+            while len(es) < k:
+                x += rng.choice([1.0, 2.0, 0.5])
+                es += [x] * rng.choice([1, 1, 2, 3, 5])
+            es = es[:k]
+            sg = [[C.bits(e), C.bits(float(1000 + i))] for i, e in enumerate(es)]
+            pts = sorted(set(es))
+            xs = [C.bits(rng.choice(pts)) for _ in range(30)] + [C.bits(p_) for p_ in pts] + [C.next_down(C.bits(p_)) for p_ in pts[::3]]
+            out.append(dict(op="evaluator_direct", ty="Poly0", segs=sg, xs=xs, meta={"class": "evaluator_direct/long_equal_ends"}))
         for _ in range(10 if tier == "quick" else 150):
             ty = rng.choice(["Poly3", "Poly1", "Log<Poly2>"])
             k = rng.randint(1, 6)
